@@ -78,13 +78,11 @@ package scheduler
 
 //@ func fetchBalances
 //@   props C14
-//@   requires stakeAcc != nil
 //@   modifies nothing
 //@   loop 1 invariant true
 
 //@ func stakingAddressMapToSliceByStake
 //@   props C14
-//@   requires stakeAcc != nil && schedulerParameters != nil
 //@   precall scheduler\.shuffleAddresses$ :: GOrdDet[arrOf(addrs)]
 //@   ensures err == nil ==> GOrdDet[arrOf(result0)]
 //@   note the slice handed to the entropy-seeded shuffle (and returned) never carries Go's map iteration order: it is sorted first
